@@ -527,7 +527,8 @@ pub fn decode_with(bytes: &[u8], require_end_magic: bool) -> Result<Decoded, Str
             d.full_data_offset, d.full_index_offset
         ));
     }
-    if d.version >= 2 && d.total_summary_offset == 0 {
+    // bigtools always writes a total summary (strict mode); a foreign file may leave it out
+    if require_end_magic && d.version >= 2 && d.total_summary_offset == 0 {
         return Err("header: version >= 2 but no total summary".into());
     }
     if d.reserved != 0 {
